@@ -86,7 +86,7 @@ func (node *PFCPNode) handleNewPeers() {
 	node.tryConnectToN4Peers(lAddrStr)
 
 	for {
-		buf := make([]byte, 1024)
+		buf := make([]byte, 65507) // Maximum UDP payload size
 
 		n, rAddr, err := node.ReadFrom(buf)
 		if err != nil {
